@@ -1,6 +1,7 @@
 import SwcVerif.Gen.AlgoNodeBranch
 import SwcVerif.Refine.Node
 import SwcVerif.Model.Branches
+import SwcVerif.Proofs.Represent
 /-! Refinement for C08's node-level methods, generated from `swcgeom/core/tree.py` on every run (`Gen/AlgoNodeBranch.lean`):
 `Tree.get_tips` and `Tree.Node.branch` (on the node methods of `Gen/AlgoNode.lean`, specified in `Refine/Node.lean`). -/
 namespace RefineNodeBranch
@@ -29,5 +30,238 @@ theorem getTips_refines (ids pids : List Int) : get_tips ids pids = some (getTip
   simp only [get_tips, get_tips.body, Py.seq, Py.bindS]
   rw [e]
   simp [Py.finish, Py.setdiff1dAU, getTips]
+
+/-! ### `Tree.Node.branch`
+
+The method walks UP from the node while the last node is not a furcation and has a parent, reverses, then walks DOWN through first
+children while the last node is neither a furcation nor a tip.  `upC` / `downC` are the two chains as recursions with fuel. -/
+
+/-- the chain the first loop collects (bottom-up): stop at a furcation or at a node without parent -/
+def upC (K : Int → List Int) (pids : List Int) : Nat → Int → List Int
+  | 0, c => [c]
+  | f+1, c => if 2 ≤ (K c).length then [c] else
+      if pids.getD c.toNat (-1) = -1 then [c] else c :: upC K pids f (pids.getD c.toNat (-1))
+
+/-- the nodes the second loop appends below `c`: the only child, as long as there is exactly one -/
+def downC (K : Int → List Int) : Nat → Int → List Int
+  | 0, _ => []
+  | f+1, c => match K c with
+    | [j] => j :: downC K f j
+    | _ => []
+
+/-- children lists of a `Tree` object with parent column `pids` -/
+abbrev KK (pids : List Int) : Int → List Int := tableKids (rangeI pids.length) pids
+
+/-- **model of `Tree.Node.branch`** on a `Tree` object with parent column `pids` -/
+def nodeBranch (pids : List Int) (F : Nat) (k : Int) : List Int :=
+  (upC (KK pids) pids F k).reverse ++ downC (KK pids) F k
+
+theorem idx_last (pre : List Int) (c : Int) : Py.idx (pre ++ [c]) (-1) = some c := by
+  simp [Py.idx, Py.normIdx]
+
+theorem node_parent_getD (pids : List Int) (c : Int) (h0 : 0 ≤ c) (hc : c < pids.length) :
+    node_parent pids c = some (if pids.getD c.toNat (-1) = -1 then none else some (pids.getD c.toNat (-1))) := by
+  rw [RefineNode.node_parent_spec pids c h0 hc, C06.getD_eq_getElem _ _ (by omega)]
+
+theorem body1_eq (pids : List Int) (v : node_branch.V) (pre : List Int) (c : Int) (hids : v.ids = rangeI pids.length)
+    (hp : v.pids = pids) (hns : v.ns = pre ++ [c]) (h0 : 0 ≤ c) (hc : c < pids.length) :
+    node_branch.while1_body v =
+      if 2 ≤ (KK pids c).length then .brk v
+      else if pids.getD c.toNat (-1) = -1 then .brk { v with p := none }
+      else .next { v with p := some (pids.getD c.toNat (-1)), ns := pre ++ [c] ++ [pids.getD c.toNat (-1)] } := by
+  obtain ⟨ids_, pids_, self_, ns_, p_, n_, c_⟩ := v
+  simp only at hids hp hns
+  have hp := hp.symm
+  subst hids hp hns
+  simp only [node_branch.while1_body, Py.seq, Py.bind, idx_last,
+    RefineNode.node_is_furcation_spec pids.length pids (Nat.le_refl _) c h0 hc, node_parent_getD pids c h0 hc]
+  by_cases hF : 2 ≤ (KK pids c).length
+  · simp [hF]
+  · by_cases hP : pids.getD c.toNat (-1) = -1
+    · rw [List.getD_eq_getElem?_getD] at hP
+      simp [hF, hP, Py.skip, idx_last, node_parent_getD pids c h0 hc]
+    · rw [List.getD_eq_getElem?_getD] at hP
+      simp [hF, hP, Py.skip, idx_last, node_parent_getD pids c h0 hc]
+
+theorem up_loop {pids : List Int} (hw : C07.WF pids) :
+    ∀ (f : Nat) (c : Int) (pre : List Int) (v : node_branch.V), v.ids = rangeI pids.length → v.pids = pids → v.ns = pre ++ [c] →
+      0 ≤ c → c < pids.length → Represent.D pids c ≤ f →
+      ∃ p', whileF node_branch.while1_cond node_branch.while1_body f v =
+        .next { v with ns := pre ++ upC (KK pids) pids f c, p := p' } := by
+  intro f
+  induction f with
+  | zero => intro c pre v _ _ _ _ _ hD; have := Represent.D_pos pids c; omega
+  | succ f ih =>
+    intro c pre v hids hp hns h0 hc hD
+    have hb := body1_eq pids v pre c hids hp hns h0 hc
+    simp only [whileF, node_branch.while1_cond]
+    by_cases hF : 2 ≤ (KK pids c).length
+    · rw [hb]; simp only [hF, if_true, upC]
+      exact ⟨v.p, by rw [← hns]⟩
+    · by_cases hP : pids.getD c.toNat (-1) = -1
+      · rw [hb]; simp only [hF, hP, if_true, if_false, upC]
+        exact ⟨none, by rw [← hns]⟩
+      · have hpos : 0 < c := by
+          rcases Int.lt_or_eq_of_le h0 with h | h
+          · exact h
+          · exfalso; apply hP; rw [← h]; exact hw.par_root
+        have hv := hw.par_valid' c hpos hc
+        have hD' : Represent.D pids (pids.getD c.toNat (-1)) ≤ f := by
+          have := hw.path_cons c hpos hc
+          unfold Represent.D at hD ⊢
+          rw [this, List.length_cons] at hD
+          omega
+        obtain ⟨p', e⟩ := ih (pids.getD c.toNat (-1)) (pre ++ [c])
+          { v with p := some (pids.getD c.toNat (-1)), ns := pre ++ [c] ++ [pids.getD c.toNat (-1)] } hids hp rfl hv.1 hv.2 hD'
+        rw [hb]; simp only [hF, hP, if_false, upC]
+        rw [e]
+        exact ⟨p', by simp⟩
+
+/-! the second loop -/
+
+theorem cond2_eq (pids : List Int) (v : node_branch.V) (pre : List Int) (c : Int) (hids : v.ids = rangeI pids.length)
+    (hp : v.pids = pids) (hns : v.ns = pre ++ [c]) (h0 : 0 ≤ c) (hc : c < pids.length) :
+    node_branch.while2_cond v = some (!(decide (2 ≤ (KK pids c).length) || decide ((KK pids c).length = 0))) := by
+  obtain ⟨ids_, pids_, self_, ns_, p_, n_, c_⟩ := v
+  simp only at hids hp hns
+  have hp := hp.symm
+  subst hids hp hns
+  simp only [node_branch.while2_cond, idx_last, Option.bind_some,
+    RefineNode.node_is_furcation_spec pids.length pids (Nat.le_refl _) c h0 hc,
+    RefineNode.node_is_tip_spec pids.length pids (Nat.le_refl _) c h0 hc]
+  by_cases hF : 2 ≤ (KK pids c).length <;> simp [hF]
+
+theorem body2_eq (pids : List Int) (v : node_branch.V) (pre : List Int) (c j : Int) (hids : v.ids = rangeI pids.length)
+    (hp : v.pids = pids) (hns : v.ns = pre ++ [c]) (h0 : 0 ≤ c) (hc : c < pids.length) (hK : KK pids c = [j]) :
+    node_branch.while2_body v = .next { v with ns := pre ++ [c] ++ [j] } := by
+  obtain ⟨ids_, pids_, self_, ns_, p_, n_, c_⟩ := v
+  simp only at hids hp hns
+  have hp := hp.symm
+  subst hids hp hns
+  simp only [node_branch.while2_body, Py.bind, idx_last, RefineNode.node_children_spec pids.length pids c h0 hc]
+  rw [show tableKids (rangeI pids.length) pids c = [j] from hK]
+  simp [Py.idx, Py.normIdx]
+
+theorem down_loop {pids : List Int} (hw : C07.WF pids) :
+    ∀ (f : Nat) (c : Int) (pre : List Int) (v : node_branch.V), v.ids = rangeI pids.length → v.pids = pids → v.ns = pre ++ [c] →
+      0 ≤ c → c < pids.length → pids.length - Represent.D pids c < f →
+      whileF node_branch.while2_cond node_branch.while2_body f v =
+        .next { v with ns := pre ++ [c] ++ downC (KK pids) f c } := by
+  intro f
+  induction f with
+  | zero => intro c pre v _ _ _ _ _ hD; omega
+  | succ f ih =>
+    intro c pre v hids hp hns h0 hc hD
+    have hcnd := cond2_eq pids v pre c hids hp hns h0 hc
+    simp only [whileF, hcnd]
+    match hK : KK pids c with
+    | [] => simp [downC, hK, ← hns]
+    | [j] =>
+      have hj : j ∈ tableKids (rangeI pids.length) pids c := by rw [show tableKids (rangeI pids.length) pids c = [j] from hK]; simp
+      obtain ⟨hj0, hjl, _, _⟩ := Represent.kid_facts hw c j h0 hj
+      have hDj := Represent.kid_D hw c j h0 hj
+      have e := ih j (pre ++ [c]) { v with ns := pre ++ [c] ++ [j] } hids hp rfl (by omega) hjl (by omega)
+      rw [body2_eq pids v pre c j hids hp hns h0 hc hK]
+      simp only [List.length_cons, List.length_nil, downC, hK]
+      simp only [show ¬ (2 ≤ 0 + 1) by omega, decide_false, Bool.false_or, show ¬ (0 + 1 = 0) by omega, Bool.not_false]
+      rw [e]
+      simp
+    | a :: b :: t => simp [downC, hK, ← hns]
+
+/-! validity of the collected handles, then the final comprehension `[n.id for n in ns]` -/
+
+theorem upC_valid {pids : List Int} (hw : C07.WF pids) : ∀ (f : Nat) (c : Int), 0 ≤ c → c < pids.length →
+    ∀ x ∈ upC (KK pids) pids f c, 0 ≤ x ∧ x < pids.length := by
+  intro f
+  induction f with
+  | zero => intro c h0 hc x hx; simp only [upC, List.mem_singleton] at hx; subst hx; exact ⟨h0, hc⟩
+  | succ f ih =>
+    intro c h0 hc x hx
+    simp only [upC] at hx
+    split at hx
+    · simp only [List.mem_singleton] at hx; subst hx; exact ⟨h0, hc⟩
+    · split at hx
+      · simp only [List.mem_singleton] at hx; subst hx; exact ⟨h0, hc⟩
+      · rename_i hP
+        have hpos : 0 < c := by
+          rcases Int.lt_or_eq_of_le h0 with h | h
+          · exact h
+          · exfalso; apply hP; rw [← h]; exact hw.par_root
+        have hv := hw.par_valid' c hpos hc
+        simp only [List.mem_cons] at hx
+        rcases hx with rfl | hx
+        · exact ⟨h0, hc⟩
+        · exact ih _ hv.1 hv.2 x hx
+
+theorem downC_valid {pids : List Int} (hw : C07.WF pids) : ∀ (f : Nat) (c : Int), 0 ≤ c →
+    ∀ x ∈ downC (KK pids) f c, 0 ≤ x ∧ x < pids.length := by
+  intro f
+  induction f with
+  | zero => intro c _ x hx; simp [downC] at hx
+  | succ f ih =>
+    intro c h0 x hx
+    simp only [downC] at hx
+    split at hx
+    · rename_i j hK
+      have hj : j ∈ tableKids (rangeI pids.length) pids c := by rw [show tableKids (rangeI pids.length) pids c = [j] from hK]; simp
+      obtain ⟨hj0, hjl, _, _⟩ := Represent.kid_facts hw c j h0 hj
+      simp only [List.mem_cons] at hx
+      rcases hx with rfl | hx
+      · exact ⟨by omega, hjl⟩
+      · exact ih j (by omega) x hx
+    · simp at hx
+
+theorem ids_loop (n : Nat) : ∀ (xs : List Int) (v : node_branch.V), v.ids = rangeI n → (∀ x ∈ xs, 0 ≤ x ∧ x < n) →
+    ∃ nn, forEach node_branch.for3 xs v = .next { v with c13_ := v.c13_ ++ xs, n := nn } := by
+  intro xs
+  induction xs with
+  | nil => intro v _ _; exact ⟨v.n, by simp [forEach]⟩
+  | cons x xs ih =>
+    intro v hids hx
+    have hx0 := hx x (by simp)
+    obtain ⟨ids_, pids_, self_, ns_, p_, n_, c_⟩ := v
+    simp only at hids
+    subst hids
+    obtain ⟨nn, e⟩ := ih ⟨rangeI n, pids_, self_, ns_, p_, x, c_ ++ [x]⟩ rfl (fun y hy => hx y (by simp [hy]))
+    refine ⟨nn, ?_⟩
+    simp only [forEach, node_branch.for3, Py.bind, RefineNode.idx_rangeI n x hx0.1 hx0.2]
+    rw [e]
+    simp
+
+/-- **`Tree.Node.branch` as translated equals the model** on every well-formed `Tree` object (ids = positions), for every valid node
+handle and every fuel `F ≥ n + 1` (fuel sufficiency included: neither loop runs out, no handle is invalid, nothing raises) -/
+theorem nodeBranch_refines {pids : List Int} (hw : C07.WF pids) (k : Int) (h0 : 0 ≤ k) (hk : k < pids.length) (F : Nat)
+    (hF : pids.length + 1 ≤ F) :
+    node_branch F (rangeI pids.length) pids k = some (nodeBranch pids F k) := by
+  have hD := Represent.D_le hw k h0 hk
+  have hDp := Represent.D_pos pids k
+  obtain ⟨p', e1⟩ := up_loop hw F k [] { (default : node_branch.V) with ids := rangeI pids.length, pids := pids, self := k, ns := [k] }
+    rfl rfl rfl h0 hk (by omega)
+  -- the chain starts with the node itself: after `reverse` the node is the last element
+  have hup : ∃ t, upC (KK pids) pids F k = k :: t := by
+    cases F with
+    | zero => omega
+    | succ F => simp only [upC]; split; exact ⟨[], rfl⟩; split; exact ⟨[], rfl⟩; exact ⟨_, rfl⟩
+  obtain ⟨t, ht⟩ := hup
+  have e2 := down_loop hw F k t.reverse
+    { (default : node_branch.V) with ids := rangeI pids.length, pids := pids, self := k, ns := (upC (KK pids) pids F k).reverse, p := p' }
+    rfl rfl (by simp [ht]) h0 hk (by omega)
+  have hval : ∀ x ∈ t.reverse ++ [k] ++ downC (KK pids) F k, 0 ≤ x ∧ x < pids.length := by
+    intro x hx
+    simp only [List.mem_append, List.mem_reverse, List.mem_singleton] at hx
+    rcases hx with (hx | rfl) | hx
+    · exact upC_valid hw F k h0 hk x (by rw [ht]; simp [hx])
+    · exact ⟨h0, hk⟩
+    · exact downC_valid hw F k h0 x hx
+  obtain ⟨nn, e3⟩ := ids_loop pids.length (t.reverse ++ [k] ++ downC (KK pids) F k)
+    { (default : node_branch.V) with ids := rangeI pids.length, pids := pids, self := k, ns := t.reverse ++ [k] ++ downC (KK pids) F k, p := p', c13_ := [] } rfl hval
+  simp only [node_branch, node_branch.body, Py.seq, Py.bindS] at e1 e2 e3 ⊢
+  simp only [List.nil_append] at e1
+  rw [e1]
+  simp only []
+  rw [e2]
+  simp only []
+  rw [e3]
+  simp [Py.finish, nodeBranch, ht]
 
 end RefineNodeBranch
